@@ -39,7 +39,8 @@ func (w *zzW) Write(b []byte) (int, error) {
 func ZZC18Helper(n int) {
 	withBody := n >= 1
 	// the request carries all five HTML metacharacters, or an apostrophe only, or a quote only
-	hv := []string{"<&>\"'", "o'neil", "say \"hi\""}[zzv.Choice("header", 3)]
+	// (or no metacharacter but a NUL byte, which html.EscapeString leaves alone)
+	hv := []string{"<&>\"'", "o'neil", "say \"hi\"", "n\x00l"}[zzv.Choice("header", 4)]
 	r := &http.Request{Method: "TRACE", URL: &url.URL{Path: "/t"}, Header: http.Header{"X-A": {hv}}, Host: "h", Proto: "HTTP/1.1", ProtoMajor: 1, ProtoMinor: 1}
 	if n >= 1 {
 		// a body whose length is not declared (chunked / streamed)
